@@ -1,4 +1,6 @@
 #!/bin/bash
+# Works on a scratch copy of /repo (REPO2) so that /repo itself is never modified.
+REPO2=${REPO2:-/tmp/repo2}; rm -rf $REPO2; cp -a /repo $REPO2; export VERIF_REPO_OVERRIDE=$REPO2
 # Runs each packed seeded change against the check(s) of its property (quick tier) and records the outcome.
 OUT=${DETECT_OUT:-/verif/seeded/detection.txt}; : > $OUT
 declare -A EXTRA=( [C02-a]="C26" [C06-b]="C07" [C13-b]="C11 C12" [C06-a]="C05" [C19-b]="C05" [C05-b]="C16" [C05-a]="C06" [C16-a]="C05" [C16-b]="C17" [C01-b]="C15" [C09-a]="C24" [C10-b]="C05" [C36-b]="C33" )
@@ -7,11 +9,12 @@ for d in ${SEEDS:-/verif/seeded/C*-*}; do
   checks="$p ${EXTRA[$n]}"
   for c in $checks; do
     grep -q "\"$c\"" /verif/checks.json || { echo "$n $c no-such-check" >> $OUT; continue; }
-    git -C /repo apply $d/patch.diff || { echo "$n $c apply-failed" >> $OUT; continue; }
+    git -C $REPO2 apply $d/patch.diff || { echo "$n $c apply-failed" >> $OUT; continue; }
     timeout 2400 /verif/bin/check $c --tier quick --no-evidence > /tmp/detect.out 2>&1; rc=$?
-    git -C /repo checkout -- .
+    git -C $REPO2 checkout -- .
     lab=$(grep -A1 '^VIOLATION' /tmp/detect.out | grep -v '^VIOLATION\|^--' | head -1 | sed 's/^ *//' | cut -c1-150)
     echo "$n $c exit=$rc $lab" >> $OUT
   done
 done
 echo done >> $OUT
+rm -rf $REPO2
